@@ -5,12 +5,13 @@ import contextlib
 import numpy as np
 
 from mc.enumerate import multisets_upto
+from checks.common import medium_diagram
 from oracles import landscape as OL
 from oracles import plfun as P
 
 PROPERTY = "C08"
 RULE = (
-    "ALL multisets of <= n bars with endpoints on the quarter lattice of [0,3] (78 bars, mostly off "
+    "medium diagrams of 6..12 (thorough ..35) bars on grids of 5..121 nodes; ALL multisets of <= n bars with endpoints on the quarter lattice of [0,3] (78 bars, mostly off "
     "grid); per diagram: grids (start,stop) in {(0,3), (-1,4), (0,3.5), tight default, only start given, only stop given} x num_steps in "
     "{2,3,4,5,7,13} (+25,100 thorough), hom_deg 0/1 with a decoy. Oracle: k-th largest tent at every "
     "grid node and depth: |value - truth| <= step/2 (+1e-9), <= 1e-12 when every endpoint is a grid "
@@ -37,6 +38,10 @@ def qbars():
 
 
 def cases(tier):
+    for n_ in ((6, 8, 12) if tier == "quick" else (6, 7, 8, 12, 20, 35)):
+        for k in range(3):
+            for lat in (True, False):
+                yield {"kind": "medium", "n": n_, "k": k, "lattice": lat}
     n = 2 if tier == "quick" else 3
     for m in multisets_upto(sorted(qbars(), key=lambda p: (p[1] - p[0], p[0])), n, min_size=1):
         yield {"D": [list(b) for b in m]}
@@ -94,10 +99,36 @@ def check_grid(ctx, D, pl, start, stop, num, what, sig="approx"):
                       observed=[pl.start, pl.stop, pl.num_steps], expected=[start, stop, num], extra=ex)
 
 
+def run_medium(case, ctx):
+    """Diagrams of 6..35 bars (deep stacks of overlapping bars) on grids with 5..121 nodes."""
+    from persim import PersLandscapeApprox, PersistenceLandscaper
+
+    D = medium_diagram(int(case["n"]), int(case["k"]), bool(case["lattice"]))
+    A = np.array(D, dtype=float)
+    decoy = np.array([[0.0, 3.0]])
+    lo, hi = float(A[:, 0].min()), float(A[:, 1].max())
+    for (start, stop) in ((0.0, 21.0), (lo, hi), (-4.0, 24.0)):
+        for num in (5, 22, 43, 85, 121):
+            ctx.state(("medium", case["n"], case["k"], case["lattice"], start, stop, num))
+            pl = quiet(ctx, PersLandscapeApprox, dgms=[A], hom_deg=0, num_steps=num, start=start, stop=stop)
+            check_grid(ctx, D, pl, start, stop, num, "medium diagram", sig="approx-medium")
+            if num == 43:
+                tr = PersistenceLandscaper(hom_deg=0, num_steps=num, start=start, stop=stop)
+                out = quiet(ctx, tr.fit_transform, [A, decoy])
+                ctx.valid()
+                if np.asarray(out).shape != np.asarray(pl.values).shape or not np.array_equal(np.asarray(out), np.asarray(pl.values)):
+                    ctx.violation("transformer", "PersistenceLandscaper.fit_transform differs from PersLandscapeApprox.values (medium diagram)",
+                                  extra={"n": case["n"], "k": case["k"], "lattice": case["lattice"]})
+    ctx.nontriv("medium_diagram_%d_bars" % len(D))
+    ctx.outcome(("medium", case["n"], case["k"], case["lattice"]))
+
+
 def run_case(case, ctx):
     from persim import PersLandscapeApprox, PersLandscapeExact, PersistenceLandscaper
     from persim.landscapes import death_vector, vectorize
 
+    if case.get("kind") == "medium":
+        return run_medium(case, ctx)
     D = case["D"]
     A = np.array(D, dtype=float)
     decoy = np.array([[0.0, 3.0], [0.25, 0.5]])
